@@ -140,6 +140,10 @@ func findReadFile(P *Program) *readFileShape {
 			}
 		}
 	}
+	if s.compIface == nil {
+		// the decompress call sits in a helper: the interface is found by its methods
+		s.compIface = rfAnchors(P).compIface
+	}
 	return s
 }
 
@@ -529,6 +533,9 @@ var specCompression = []string{"null", "deflate", "snappy"}
 func ruleCTAgree(c *Ctx, s *readFileShape) {
 	P := c.P
 	c.Rule("NIL-IFACE", "no nil interface value can reach the receiver of the decompress call", 1)
+	if rfDecide(c, "codec") && ctAgreeByTrace(c) {
+		return
+	}
 	if !c.Anchor(s.decompress != nil && s.compIface != nil, "decompress call in ReadFile") {
 		return
 	}
@@ -873,6 +880,9 @@ func syncFacts(facts []Fact, rf *ssa.Call, isWant func(ssa.Value) bool) (okErr, 
 
 func ruleODSync(c *Ctx, s *readFileShape) {
 	c.Rule("OD-SYNC", "another block is read only after 16 bytes were read in full and found equal to the header's sync marker", 1)
+	if rfDecide(c, "sync") {
+		return
+	}
 	P := c.P
 	// the marker check may sit in ReadFile's loop or in a helper called from it
 	var helperCall *ssa.Call
@@ -1048,6 +1058,14 @@ func ruleCRCDecompress(c *Ctx, s *readFileShape, ruleID string) {
 		return
 	}
 	key := fnKey(dec) + "/success"
+	if probs, folded := crcDecompressByFold(P, dec); folded {
+		if len(probs) > 0 {
+			c.Bad(key, P.pos(dec.Pos()), strings.Join(probs, "; "))
+		} else {
+			c.OK(key, P.pos(dec.Pos()), "folded: on every accepting path Decode(compressed[:len-4]) succeeded, crc32.ChecksumIEEE of its result was found equal to BigEndian.Uint32(compressed[len-4:]), and that result is what is returned")
+		}
+		return
+	}
 	param := dec.Params[len(dec.Params)-1]
 	D := findStaticCall(dec, "github.com/golang/snappy.Decode")
 	U := findStaticCall(dec, "(encoding/binary.bigEndian).Uint32")
@@ -1106,6 +1124,14 @@ func ruleCRCCompress(c *Ctx, s *readFileShape) {
 		return
 	}
 	key := fnKey(enc) + "/result"
+	if probs, folded := crcCompressByFold(P, enc); folded {
+		if len(probs) > 0 {
+			c.Bad(key, P.pos(enc.Pos()), strings.Join(probs, "; "))
+		} else {
+			c.OK(key, P.pos(enc.Pos()), "folded: returns BigEndian.AppendUint32(snappy.Encode(_, uncompressed), crc32.ChecksumIEEE(uncompressed))")
+		}
+		return
+	}
 	param := enc.Params[len(enc.Params)-1]
 	E := findStaticCall(enc, "github.com/golang/snappy.Encode")
 	K := findStaticCall(enc, "hash/crc32.ChecksumIEEE")
@@ -1144,6 +1170,11 @@ func ruleCRCCompress(c *Ctx, s *readFileShape) {
 func ruleODLenFlow(c *Ctx, s *readFileShape) {
 	P := c.P
 	c.Rule("OD-LEN", "the payload buffer handed to io.ReadFull has exactly the declared block length", 1)
+	if rfDecide(c, "len") {
+		c.Rule("OD-FLOW", "the bytes read are the bytes decompressed, the bytes decoded and the record delivered", 1)
+		rfDecide(c, "flow")
+		return
+	}
 	if !c.Anchor(s.payloadRF != nil && len(s.varints) >= 2, "payload ReadFull and the two block-header varints") {
 		return
 	}
@@ -1211,6 +1242,9 @@ func ruleODLenFlow(c *Ctx, s *readFileShape) {
 
 func ruleERPass(c *Ctx, s *readFileShape) {
 	c.Rule("ER-PASS", "an error returned by the callback stops reading and is returned unchanged", 1)
+	if rfDecide(c, "errpass") {
+		return
+	}
 	P := c.P
 	if !c.Anchor(s.cbCall != nil, "callback call in ReadFile") {
 		return
@@ -1254,6 +1288,9 @@ func ruleERPass(c *Ctx, s *readFileShape) {
 
 func ruleODLoop(c *Ctx, s *readFileShape) {
 	c.Rule("OD-LOOP", "each block delivers exactly its declared number of records: one decode and one callback per iteration of a loop over the block's count", 3)
+	if rfDecide(c, "loop", "count") {
+		return
+	}
 	P := c.P
 	if !c.Anchor(s.codecRead != nil && s.cbCall != nil && len(s.varints) >= 1, "record decode, callback and block count in ReadFile") {
 		return
@@ -1280,6 +1317,9 @@ func ruleODLoop(c *Ctx, s *readFileShape) {
 
 func ruleODEOF(c *Ctx, s *readFileShape) {
 	c.Rule("OD-EOF", "ReadFile reports success only when the input ends exactly where a block would start", 2)
+	if rfDecide(c, "eof") {
+		return
+	}
 	P := c.P
 	if !c.Anchor(s.fn != nil && len(s.varints) >= 1 && s.outer != nil, "block loop of ReadFile") {
 		return
@@ -1331,13 +1371,14 @@ func ruleODReadFull(c *Ctx, s *readFileShape) {
 	if !c.Anchor(s.fn != nil && s.rParam != nil, "Reader parameter of ReadFile") {
 		return
 	}
-	seen := map[*ssa.Function]bool{}
-	var visit func(fn *ssa.Function, r *ssa.Parameter)
-	visit = func(fn *ssa.Function, r *ssa.Parameter) {
-		if seen[fn] {
+	seen := map[ssa.Value]bool{}
+	seenField := map[string]bool{}
+	var visit func(fn *ssa.Function, r ssa.Value)
+	visit = func(fn *ssa.Function, r ssa.Value) {
+		if seen[r] {
 			return
 		}
-		seen[fn] = true
+		seen[r] = true
 		keys := callKeys(fn)
 		var walk func(v ssa.Value)
 		walk = func(v ssa.Value) {
@@ -1376,6 +1417,35 @@ func ruleODReadFull(c *Ctx, s *readFileShape) {
 						continue
 					}
 					c.Bad(key, P.pos(x.Pos()), fmt.Sprintf("the reader is consumed through %s, which may return fewer bytes than requested without an error", q))
+				case *ssa.Store:
+					// the reader kept in a field of one of the module's own structs: followed to every load of that field
+					fa, isFA := x.Addr.(*ssa.FieldAddr)
+					if !isFA || x.Val != v || !P0isModule(pkgPathOf(derefType(fa.X.Type()))) {
+						c.Unk(fnKey(fn)+"/reader-use", P.pos(ref.Pos()), fmt.Sprintf("unrecognised use of the reader: %s", ref.String()))
+						continue
+					}
+					fk := typeKey(derefType(fa.X.Type())) + "." + fieldName(fa.X.Type(), fa.Field)
+					if seenField[fk] {
+						continue
+					}
+					seenField[fk] = true
+					c.OKTrivial(fnKey(fn)+"/reader-kept:"+fk, P.pos(ref.Pos()), "the reader is kept in "+fk+"; every load of that field is analysed in turn")
+					for _, g := range P.ModuleFuncs() {
+						for _, b := range g.Blocks {
+							for _, in := range b.Instrs {
+								fa2, ok := in.(*ssa.FieldAddr)
+								if !ok || typeKey(derefType(fa2.X.Type()))+"."+fieldName(fa2.X.Type(), fa2.Field) != fk {
+									continue
+								}
+								for _, r2 := range referrersOf(fa2) {
+									if ld, isLd := r2.(*ssa.UnOp); isLd && ld.Op == token.MUL {
+										visit(g, ld)
+									}
+								}
+							}
+						}
+					}
+				case *ssa.DebugRef:
 				default:
 					c.Unk(fnKey(fn)+"/reader-use", P.pos(ref.Pos()), fmt.Sprintf("unrecognised use of the reader: %s", ref.String()))
 				}
@@ -1388,6 +1458,9 @@ func ruleODReadFull(c *Ctx, s *readFileShape) {
 
 func ruleODDeliver(c *Ctx, s *readFileShape) {
 	c.Rule("OD-DELIVER", "a record is delivered only after its block's payload was read in full, decompressed and the record decoded without error", 3)
+	if rfDecide(c, "deliver") {
+		return
+	}
 	P := c.P
 	if !c.Anchor(s.cbCall != nil && s.payloadRF != nil && s.decompress != nil && s.codecRead != nil, "callback, payload read, decompress, decode") {
 		return
@@ -1414,6 +1487,9 @@ func ruleODDeliver(c *Ctx, s *readFileShape) {
 
 func ruleODClear(c *Ctx, s *readFileShape) {
 	c.Rule("OD-CLEAR", "the target is zeroed with its own type before each record is decoded into it", 1)
+	if rfDecide(c, "clear") {
+		return
+	}
 	P := c.P
 	if !c.Anchor(s.codecRead != nil, "codec.Read in ReadFile") {
 		return
@@ -1436,6 +1512,9 @@ func ruleODClear(c *Ctx, s *readFileShape) {
 
 func ruleODBank(c *Ctx, s *readFileShape) {
 	c.Rule("OD-BANK", "every callback receives a resource bank of its own, extracted in the same iteration; extraction installs a fresh bank", 2)
+	if rfDecide(c, "bank") {
+		return
+	}
 	P := c.P
 	if !c.Anchor(s.cbCall != nil, "callback call") {
 		return
